@@ -155,6 +155,26 @@ CLAIMED = {
                      "feed-back oracle on the public API",
         "design": "DESIGN.md section 5, C09",
     },
+    "C01": {
+        "text": "Coq theorems (props/C01.v): the arithmetic of each of the three query plans of aggr.py yields the unbiased sample "
+                "(co)variance of the group's rows for all tables (narwhals: mean of products of demeaned columns / (1 - 1/n); ibis "
+                "fallback: sum / (count - 1)); the (n-1) normalisation matters; two-pass shape (offset-free); other variants' rows "
+                "irrelevant. The plans (model/ReadPlan.plan_of_spec) are tied to the REAL narwhals and ibis builders (both "
+                "branches) by plan capture with equality decided in Coq. Partial: engines evaluate plans as read; error bound",
+        "note": "trusted: Coq kernel, stdlib real axioms, plan recorders, the five executable engines for the denotation; ibis "
+                "native var/cov semantics; no rounding-error theorem",
+        "technique": "Coq proof of the plan arithmetic + plan reification from the real query builders compared in Coq; "
+                     "exact-rational differential on five backends",
+        "design": "DESIGN.md section 5, C01",
+    },
+    "C02": {
+        "text": "Coq theorems (props/C02.v): the exact aggregates are invariant under row permutations and under any change of "
+                "columns a metric does not use; results depend on the declared statistics only. Differential across pandas / "
+                "polars / polars-lazy / pyarrow / ibis-sqlite x row orders x chunkings x extra columns; variant key types",
+        "note": "trusted: as C01 and C12; chunking / dtype conversion only through the differential (C02_chunking_partial)",
+        "technique": "Coq proof (permutation / extensionality invariance) + cross-backend metamorphic differential",
+        "design": "DESIGN.md section 5, C02",
+    },
 }
 REASONS = {}
 
